@@ -227,12 +227,11 @@ MANIFEST_TEXT = {
     },
     "C13": {
         "text": "Lean: assemble_not_diverged (assembly terminates for EVERY input: the PCR size loop settles a statement per pass or the progress guard forces "
-                "one) and assemble_internal_only_from_expand: if assemble ends in an internal error then either INCLUDE expansion ran out of the model's "
-                "fuel (more than 64 nested files, standing for Python's RecursionError) or the expanded program has more than 65,536 statements; in every "
-                "other case the result is output or a diagnostic (C13_of_expand_ok, C13_no_include, C13_short_program) - proved stage by stage from "
-                "invariants of the values the parser can produce (no hypothesis assumed). C13_Statement_false: a kernel-checked 70,002-line program "
-                "(a statement INDEX above 65535 leaks into an address expression) and the 65-nested-INCLUDE program. parseLine(s)_no_internal; "
-                "C10's asmMain_failure gives the exit-status clause.",
+                "one) and assemble_internal_iff_expand: assemble ends in an internal error IF AND ONLY IF "
+                "INCLUDE expansion ran out of the model's fuel (more than 64 nested files, standing for Python's RecursionError); in every other case - for "
+                "EVERY input text - the result is output or a diagnostic (C13_of_expand_ne_internal, C13_no_include). Proved stage by stage from invariants of "
+                "the values the parser can produce (no hypothesis assumed). C13_Statement_false only through the 65-nested-INCLUDE program. "
+                "parseLine(s)_no_internal; C10's asmMain_failure gives the exit-status clause.",
         "design_ref": "DESIGN.md section 5 C13, section 6 I",
         "note": "internal errors found on the way were repaired (fix: commits dfaa72e, 53e40d1, 3dc4a50, 077e4c2, 316e504, 8c9a9ea, 0addc5e, dfad397, 145359a); the streams run under a 3 s watchdog",
         "technique": "Lean 4 proof (termination measure for the size fixpoint; outcome case analysis of the parser) + differential correspondence with watchdog + CLI exit-status oracle",
